@@ -3,7 +3,9 @@ package main
 // Regenerated tie by translation for C15 (irlib.go, notes/IR.md): the bodies of
 //   Broker.sendMsgToClient            (broker.go)  → sendIR        = Model/Delivery.send (+ the nil-map exit of fanout)
 //   topicNode.addClients              (topic.go)   → addClientsIR  = Model/Topic.addMax (left fold keeping the maximum)
-//   Session.getPacketFromMsg          (session.go) → getPacketIR   = (pkt nextID m, (nextID+1) % 65536)
+//   processPublish                    (client.go)  → processPublishIR = the PUBACK part of SessionQueue.onPublish
+//   Session.getPacketFromMsg          (session.go) → getPacketIR   = (pkt i m, (i+1) % 65536) with i = freeId pending nextID
+//                                                      (repaired: ids still pending are skipped, bounded loop)
 //   Session.publish                   (session.go) → publishIR     = Model/SessionQueue.publish
 //   Session.puback                    (session.go) → pubackIR      = SessionQueue.puback
 //   Session.doResend                  (session.go) → doResendIR    = SessionQueue.doResend
@@ -58,7 +60,7 @@ func c15Hook(t *irT, e ast.Expr, env *irEnv) (irTerm, bool, error) {
 		if x.Op.String() == "<<" {
 			if a, ok := x.X.(*ast.BasicLit); ok && a.Value == "1" {
 				if b, ok := x.Y.(*ast.BasicLit); ok && b.Value == "16" {
-					return irTerm{"65536", "lit"}, true, nil
+					return irTerm{"(65536 : Int)", "Int"}, true, nil
 				}
 			}
 		}
@@ -160,8 +162,9 @@ func c15SessSpec(name string) *irSpec {
 		SliceFrom: map[string]irCall{"List U16": {Fmt: "(%[1]s.drop %[2]s)", Ty: "List U16"}},
 		Ext:       irSpecExt{RangeKeyTy: "Nat", IndexOk: map[string]irCall{"PendMap": {Fmt: "(lookupMsg %[1]s %[2]s)", Ty: "Msg × Bool"}}},
 		EffMethods: map[string]irEffCall{
-			// p := s.getPacketFromMsg(topic, payload, qos): the packet carries the current counter, which then steps
-			"Sess.getPacketFromMsg": {NArgs: 3, Pre: []irLet{{"§tmp", "U16", "s_nextID"}, {"s_nextID", "U16", "((s_nextID + 1) %% idMod)"}},
+			// p := s.getPacketFromMsg(topic, payload, qos): the packet carries the first id from the counter on that is
+			// not pending (`freeId`, the repaired allocation tied by getPacketIR), the counter then steps past it
+			"Sess.getPacketFromMsg": {NArgs: 3, Pre: []irLet{{"§tmp", "U16", "(freeId s_pending s_nextID)"}, {"s_nextID", "U16", "((§tmp + 1) %% idMod)"}},
 				Fmt: "(pkt §tmp (⟨%[2]s, %[3]s, %[4]s⟩ : Msg))", Ty: "Packet"},
 		},
 		StmtFuncs: map[string]irStmtCall{
@@ -260,12 +263,53 @@ func init() {
 			return err
 		}
 
+		// processPublish (client.go): the PUBACK for an inbound QoS1 PUBLISH (after limiter and pipeline passed)
+		pp := &irSpec{
+			Name:    "processPublishIR",
+			Binders: "(qos : Nat) (i : Nat)",
+			BNames:  []string{"qos", "i"},
+			RetTy:   "List Nat",
+			Params:  []irTerm{{"()", "ClientPtr"}, {"()", "CtlPkt"}},
+			State:   []irLet{{"acks", "Acks", "[]"}, {"ack_id", "Nat", "0"}},
+			LeanTy:  map[string]string{"ClientPtr": "Unit", "CtlPkt": "Unit", "PubPkt": "Unit", "AckB": "Unit", "Acks": "List Nat"},
+			Fields: map[string]irField{
+				"PubPkt.Qos":       {Fmt: "qos", Ty: "Nat"},
+				"PubPkt.MessageID": {Fmt: "i", Ty: "Nat"},
+				"AckB.MessageID":   {Fmt: "ack_id", Ty: "Nat", State: true},
+			},
+			Consts: map[string]irTerm{"QoS0": {"0", "Nat"}, "QoS1": {"1", "Nat"}, "QoS2": {"2", "Nat"}},
+			StmtMethods: map[string]irStmtCall{
+				"ClientPtr.writePacket": {NArgs: 1, Lets: []irLet{{"acks", "Acks", "(acks ++ [ack_id])"}}},
+			},
+			Hook: func(t *irT, e ast.Expr, env *irEnv) (irTerm, bool, error) {
+				if ta, ok := e.(*ast.TypeAssertExpr); ok {
+					switch t.r.Src(ta) {
+					case "packet.(*packets.PublishPacket)":
+						return irTerm{"()", "PubPkt"}, true, nil
+					case "packets.NewControlPacket(packets.Puback).(*packets.PubackPacket)":
+						return irTerm{"()", "AckB"}, true, nil
+					}
+				}
+				return irTerm{}, false, nil
+			},
+			Ret: func(v []irTerm) (string, error) {
+				if len(v) != 0 {
+					return "", errUnsupportedReturn
+				}
+				return "acks", nil
+			},
+		}
+		if err := irEmit(r, w, "pkg/object/mqttproxy/client.go", "", "processPublish", pp,
+			"`qos`, `i` = the inbound PUBLISH packet's QoS and packet id; result: the ids of the PUBACK packets written."); err != nil {
+			return err
+		}
+
 		const file = "pkg/object/mqttproxy/session.go"
 		// Session.getPacketFromMsg
 		s = c15SessSpec("getPacketIR")
 		s.Binders, s.BNames, s.RetTy = "(s : Sess) (m : Msg)", []string{"s", "m"}, "Packet × Nat"
 		s.Params = []irTerm{{"m.topic", "String"}, {"m.payload", "Payload"}, {"m.qos", "Nat"}}
-		s.State = []irLet{{"s_nextID", "U16", "s.nextID"}, {"p_id", "U16", "0"}, {"p_qos", "Nat", "0"}, {"p_topic", "String", "\"\""}, {"p_payload", "Payload", "\"\""}}
+		s.State = []irLet{{"s_pending", "PendMap", "s.pending"}, {"s_nextID", "U16", "s.nextID"}, {"p_id", "U16", "0"}, {"p_qos", "Nat", "0"}, {"p_topic", "String", "\"\""}, {"p_payload", "Payload", "\"\""}}
 		s.Ret = func(v []irTerm) (string, error) {
 			if len(v) != 1 || v[0].Ty != "PktB" {
 				return "", errUnsupportedReturn
